@@ -197,3 +197,17 @@ package ast
 //@   ensures err == nil ==> (forall i int :: 0 <= i && i < len(m) ==> (m[i] == ArgModeInput ==> !freeVar(boundVars, goal.Args[i])) && (m[i] == ArgModeOutput ==> freeVar(boundVars, goal.Args[i])))
 //@   loop 1 invariant len(m) == len(goal.Args)
 //@   loop 1 invariant forall i int :: 0 <= i && i < rangeindex + 1 ==> (m[i] == ArgModeInput ==> !freeVar(boundVars, goal.Args[i])) && (m[i] == ArgModeOutput ==> freeVar(boundVars, goal.Args[i]))
+
+// ---- C08: printing of numbers is injective per kind ---------------------------------------------------------------
+// A float constant prints as text that reads back as the same float64, an integer as its decimal numeral (assumed
+// contracts of strconv): two different floats (two different integers) never print alike.
+//@ func FormatFloat64(floatNum)
+//@   modifies nothing
+//@   ensures strconv.parseF64(result) == floatNum
+
+// ASSUMED about fmt: "%d" of an int64 is its decimal numeral.
+//@ axiom sprintfDecimal(x int64): strconv.parseI64(sprintf("%d", x)) == x
+//@ func FormatNumber(num)
+//@   modifies nothing
+//@   use sprintfDecimal(num)
+//@   ensures strconv.parseI64(result) == num
